@@ -55,3 +55,9 @@ C02_CONSTANT_FLAGS = {
     "TransformContainers.__apply_line_transformation_check: True": "'kludge_flag' is the switch that turns the line-by-line consistency assertion off, documented as a kludge in the source",
     "TransformContainers.__adjust_for_list_adjust_block_quote: True": "'block_start_on_remove' names the constant argument of this call path; the sibling path computes it",
 }
+
+# C13 R13c: fields of the plugin manager that are written while a file is processed and deliberately survive it
+C13_MANAGER_FIELDS = {
+    "PluginManager.number_of_scan_failures": "per-run accumulator by design (named in the property): decides the exit code of the run, zeroed by initialize (R13d)",
+    "PluginManager.number_of_pragma_failures": "per-run accumulator by design (named in the property): decides the exit code of the run, zeroed by initialize (R13d)",
+}
